@@ -72,7 +72,13 @@ def run_frame(ctx, rules=("frame.affine",), want_cipher=False):
         for u in fr.unknown:
             ctx.violate("frame.affine", f"{key0}|shape|{u[:50]}", f"{fn['path']}: {u}", fn["file"], fn["line"])
         op_len = 4 if ep["dir"] == "client" else 2
-        paths = [p for p in paths if p.body_len is not None or p.final_call is not None]
+        # a path that leaves after the header was taken from the stream but before the body was: the rest of this frame stays in
+        # the stream and the next header is read from the middle of it (and, encrypted, the cipher is stepped on body bytes)
+        for p in paths:
+            if p.returned in ("call", "other") and p.consumed > 0 and p.body_len is None and not want_cipher:
+                ctx.violate("frame.affine", f"{key0}|early-return", f"{fn['path']}: a path returns{' through ' + p.final_call if p.final_call else ''} after {p.consumed} header bytes were taken from the stream "
+                            f"but before the body was read: the body of that frame stays in the stream, so the next read starts in the middle of it (stream no longer aligned on a frame boundary)", fn["file"], fn["line"])
+        paths = [p for p in paths if (p.body_len is not None or p.final_call is not None) and not (p.returned is not None and p.body_len is None)]
         if not paths:
             ctx.violate("frame.affine", f"{key0}|nopath", f"{fn['path']}: no path reads a body", fn["file"], fn["line"])
             continue
